@@ -81,6 +81,8 @@ class SimOutputStream(OutputStream):
 
     def flush(self):
         self.log.add("flush", self.name)
+        if self._closed:
+            raise IOError("simulated: stream %s is closed" % self.name)
 
     def supports_ansi(self):
         return self._ansi
